@@ -2,7 +2,7 @@
    Extract Inductive of our own: positive / N / Z stay the extracted inductives. *)
 Require Extraction.
 Require ExtrOcamlBasic.
-From WB Require Import Base.Str Base.Json Model.Key Model.Store Model.Subs Model.Entry Model.Core Model.Codec Model.JsonText Model.Auth Model.Persist Model.Aggregator Model.Session Model.Election Model.ElectionCodec Model.Client Model.Sync Model.Redb Model.Rest.
+From WB Require Import Base.Str Base.Json Model.Key Model.Store Model.Subs Model.Entry Model.Core Model.Codec Model.JsonText Model.Auth Model.Persist Model.Aggregator Model.Session Model.Election Model.ElectionCodec Model.Client Model.Sync Model.Redb Model.Rest Model.RestWorld.
 Extraction Language OCaml.
 Extraction "model.ml" Core.step Core.is_crash Core.run Core.init Core.final Str.dec_of_N Str.split Str.join
   Key.kseg_parse Entry.enc_persisted Entry.dec_persisted N.add N.mul N.of_nat N.to_nat
@@ -15,4 +15,4 @@ Extraction "model.ml" Core.step Core.is_crash Core.run Core.init Core.final Str.
   Client.cinit Client.on_cmd Client.on_msg Client.result_of Client.sb_init Client.bstep
   Sync.cl_request Sync.cl_join Sync.cl_drain Sync.fstep_api Sync.user_entries Sync.registrations Sync.promote
   Redb.actions_of Redb.apply_all Redb.t_empty Redb.recover Redb.user_all Redb.recover_tables Redb.shutdown_actions
-  Rest.rest_handle.
+  Rest.rest_handle RestWorld.wrest.
